@@ -20,3 +20,6 @@ def run(col, configs, tier):
         guarded(col, I.rule_sizes, facts)
         guarded(col, X.rule_step_helper_agreement, facts)
         guarded(col, X.rule_jeaiii, facts)
+        guarded(col, X.rule_chunk_padding, facts)
+        from rules import c08
+        guarded(col, c08.rule_mask_shift, facts)
